@@ -24,6 +24,22 @@ Oracles (see DESIGN.md C25):
        extraction transformations leaves each kernel's visit multiset and the
        per-point kernel order identical to the untransformed invoke with the
        same bounds setting (1 and 4 OpenMP threads).
+
+Each mock grid comes in two modes: 'D' (every field has its own regions and
+data extents: decides (ii)) and 'S' (fields of one grid-point type share their
+regions, as dl_esm_inf guarantees: the only mode on which default-bounds loop
+fusion is judged).  One worker process per configuration file (Config is a
+per-process singleton); all histories of a job are linked into at most three
+programs (plain / -fopenmp / -fopenacc) that read the mock grids from stdin.
+
+Genuine defects found on the pinned tree carry a mechanism string computed
+from the invoke alone and confirmed by the predicted wrong region:
+ go_every_ignores_user_space   (kind region_differs_user_space)
+ fuse_across_index_offsets     (kind visits_changed_by_transformation)
+
+VF_C25_SELFTEST=1 alters a loop bound in the scratch copy of the generated
+text (never in /repo) to show that the oracles fire; the run is then reported
+inconclusive on purpose.
 """
 import os
 import re
